@@ -79,6 +79,21 @@ theorem C08_mark_ctor (P : Proc) (n : Nat) (e r x : Err) :
         || markEquiv (getMark P r) (getMark P x) || isB P e x)) := by
   simp [cMark, C08_mark]
 
+/-- Marks accumulate: a second `Mark` on top keeps the first one.  `Mark(Mark(e, r1), r2)` matches
+    every reference equivalent to `r1` and every reference equivalent to `r2` (in particular `r1`
+    and `r2` themselves) and everything `e` matched. -/
+theorem C08_mark_accumulates (P : Proc) (id1 id2 : Ident) (m1 m2 : Str) (t1 t2 : List TMark) (e x : Err) :
+    isB P (.wrap id2 (.withMark m2 t2) (.wrap id1 (.withMark m1 t1) e)) x =
+      (selfMatch (.wrap id2 (.withMark m2 t2) (.wrap id1 (.withMark m1 t1) e)) x ||
+        markEquiv ⟨m2, t2⟩ (getMark P x) ||
+        (selfMatch (.wrap id1 (.withMark m1 t1) e) x || markEquiv ⟨m1, t1⟩ (getMark P x) || isB P e x)) := by
+  rw [C08_mark, C08_mark]
+
+theorem C08_mark_keeps_first (P : Proc) (id1 id2 : Ident) (m1 m2 : Str) (t1 t2 : List TMark) (e x : Err)
+    (h : markEquiv ⟨m1, t1⟩ (getMark P x) = true) :
+    isB P (.wrap id2 (.withMark m2 t2) (.wrap id1 (.withMark m1 t1) e)) x = true := by
+  rw [C08_mark_accumulates]; simp [h]
+
 /-- Non-vacuity / regression of the repaired defect: the two witnesses on which the
     pinned tree panicked resp. reported a false match are now decided as different. -/
 def uW : UserTy := ⟨b!"x/*x.W", b!"*x.W", 1, [], 1⟩
